@@ -194,13 +194,56 @@ Theorem C04_table_items_main : forall (its rest : list titem) (rows : list (row_
   read_table_items (its ++ TClose k_table_table :: rest) = Ok (ods_spec_table rows).
 Proof. exact ods_table_items_main. Qed.
 
+(* the layout of a row (fixes ODS-3, ODS-1 of notes/AUDIT2.md).  Between the cells of a row:
+   white-space text and comments (an indented content.xml); among the children of a cell:
+   white-space text, comments, an annotation, drawing objects anchored to the cell holding
+   paragraphs of their own.  All of it is transparent: a row reads as its flat form (cells
+   alone, each with its own paragraphs alone). *)
+Theorem C04_cell_layout_transparent : forall c : xcell, read_xcell c = read_xcell (flat_cell c).
+Proof. exact cell_layout_transparent. Qed.
+
+Theorem C04_row_layout_transparent : forall x : xrow,
+  row_ok x = true -> read_xrow x = read_xrow (flat_row x).
+Proof. exact row_layout_transparent. Qed.
+
+Theorem C04_row_layout_independent : forall x1 x2 : xrow,
+  row_ok x1 = true -> row_ok x2 = true ->
+  xr_attrs x1 = xr_attrs x2 -> map flat_cell (xr_cells x1) = map flat_cell (xr_cells x2) ->
+  read_xrow x1 = read_xrow x2.
+Proof. exact row_layout_independent. Qed.
+
+(* anything else between the cells (a CDATA section, a foreign element): the row is not read *)
+Theorem C04_row_foreign_item_rejected : forall (its1 its2 : list ritem) r,
+  read_ritems (its1 ++ ROther :: its2) <> Ok r.
+Proof. exact row_foreign_item_rejected. Qed.
+
+(* composed with the loop over the content of table:table and the grid theorem *)
+Theorem C04_table_items_layout_main : forall (its rest : list titem) (rows : list (row_elem data str)),
+  forallb item_ok its = true -> forallb row_ok (rows_of its) = true ->
+  map_outcome read_xrow (map flat_row (rows_of its)) = Ok rows ->
+  counts_pos rows = true -> extent_ok rows = true ->
+  read_table_items (its ++ TClose k_table_table :: rest) = Ok (ods_spec_table rows).
+Proof. exact ods_table_items_layout_main. Qed.
+
+Theorem C04_table_layout_independent : forall (its1 its2 rest1 rest2 : list titem),
+  forallb item_ok its1 = true -> forallb item_ok its2 = true ->
+  forallb row_ok (rows_of its1) = true -> forallb row_ok (rows_of its2) = true ->
+  map flat_row (rows_of its1) = map flat_row (rows_of its2) ->
+  read_table_items (its1 ++ TClose k_table_table :: rest1) =
+  read_table_items (its2 ++ TClose k_table_table :: rest2).
+Proof. exact ods_table_layout_independent. Qed.
+
+Theorem C04_no_panic_read_ritems : forall its : list ritem,
+  read_ritems its <> Panic /\ read_ritems its <> OutOfFuel.
+Proof. exact read_ritems_total. Qed.
+
 Theorem C04_no_panic_table_loop : forall (its : list titem) (acc : list xrow),
   table_loop its acc <> Panic /\ table_loop its acc <> OutOfFuel.
 Proof. exact table_loop_total. Qed.
 
 (* a row group inside a row group between two plain rows, a column element in front *)
 Example C04_containers_nonvacuous :
-  let r := mkXRow [] [mkXCell false [(a_value_type, v_float); (a_value, [49])] []] in
+  let r := mkXRow [] [RCell (mkXCell false [(a_value_type, v_float); (a_value, [49])] [])] in
   let g := [104] in
   let its := [TOther; TOpen [99] []; TClose [99]; TRow r; TOpen g []; TOpen g []; TRow r; TClose g;
               TRow r; TClose g; TRow r] in
@@ -208,6 +251,44 @@ Example C04_containers_nonvacuous :
   exists rv rf, read_table_items (its ++ [TClose k_table_table]) = Ok (rv, rf) /\
                 r_start rv = (0, 0) /\ r_end rv = (3, 0).
 Proof. vm_compute. repeat split. eexists; eexists; repeat split. Qed.
+
+(* an indented table: white space and a comment between the cells, an indented string cell with
+   an annotation, a text box and an image anchored to it (their paragraphs are not the cell's), a
+   float cell with an anchored shape; the flat table reads the same, cell B1 is "ab\ncd" *)
+Example C04_layout_nonvacuous :
+  let ind := [10; 32; 32] in
+  let frame := [100; 114; 97; 119; 58; 102; 114; 97; 109; 101] in
+  let sc := mkXCell false [(a_value_type, v_string)]
+              [XWs ind; XAnnot [[110]]; XWs ind; XPara [97; 98]; XWs ind; XComment; XPara [99; 100]; XWs ind;
+               XShape frame [[66; 49]; [66; 50]]; XWs ind; XShape frame [[]]; XWs [10]] in
+  let fc := mkXCell false [(a_value_type, v_float); (a_value, [49])] [XPara [49]; XShape frame [[115]]] in
+  let r := mkXRow [] [RText ind; RCell fc; RText ind; RComment; RCell sc; RText [10]] in
+  let its := [TOther; TRow r; TOther; TRow r; TOther] in
+  forallb item_ok its = true /\ forallb row_ok (rows_of its) = true /\
+  forallb xrow_legal (rows_of its) = true /\ xr_cells r = [fc; sc] /\
+  xc_paras sc = [[97; 98]; [99; 100]] /\ flat_row r <> r /\
+  exists rv rf, read_table_items (its ++ [TClose k_table_table]) = Ok (rv, rf) /\
+                read_table_items (map (fun x => TRow (flat_row x)) (rows_of its) ++ [TClose k_table_table]) = Ok (rv, rf) /\
+                r_start rv = (0, 0) /\ r_end rv = (1, 1) /\
+                nth_error (r_inner rv) 1 = Some (DString [97; 98; 10; 99; 100]).
+Proof.
+  cbn zeta.
+  split; [vm_compute; reflexivity|]. split; [vm_compute; reflexivity|].
+  split; [vm_compute; reflexivity|]. split; [vm_compute; reflexivity|].
+  split; [vm_compute; reflexivity|].
+  split; [intro H; apply (f_equal (fun x => length (xr_items x))) in H; vm_compute in H; discriminate|].
+  eexists; eexists.
+  split; [vm_compute; reflexivity|]. split; [vm_compute; reflexivity|].
+  repeat split; vm_compute; reflexivity.
+Qed.
+
+Check C04_row_layout_transparent : forall x : xrow,
+  row_ok x = true -> read_xrow x = read_xrow (flat_row x).
+Check C04_table_items_layout_main : forall (its rest : list titem) (rows : list (row_elem data str)),
+  forallb item_ok its = true -> forallb row_ok (rows_of its) = true ->
+  map_outcome read_xrow (map flat_row (rows_of its)) = Ok rows ->
+  counts_pos rows = true -> extent_ok rows = true ->
+  read_table_items (its ++ TClose k_table_table :: rest) = Ok (ods_spec_table rows).
 
 Check C04_row_containers_transparent : forall (its rest : list titem),
   forallb item_ok its = true ->
@@ -243,3 +324,10 @@ Print Assumptions C04_row_containers_transparent.
 Print Assumptions C04_row_containers_independent.
 Print Assumptions C04_table_items_main.
 Print Assumptions C04_no_panic_table_loop.
+Print Assumptions C04_cell_layout_transparent.
+Print Assumptions C04_row_layout_transparent.
+Print Assumptions C04_row_layout_independent.
+Print Assumptions C04_row_foreign_item_rejected.
+Print Assumptions C04_table_items_layout_main.
+Print Assumptions C04_table_layout_independent.
+Print Assumptions C04_no_panic_read_ritems.
